@@ -328,6 +328,123 @@ def oracle(case, out):
     return out["checks"][:3]
 
 
+_SEARCH_USED = [0.0]      # seconds spent searching in this run: all calls together stay below 150 s
+
+
+def search(case, out, rng):
+    """a workflow on which model and implementation disagree although its own optimum came out right: look nearby for a
+    workflow whose optimum comes out wrong -- the same constraints (kept in place, so whatever they did to the bookkeeping
+    happens again), possibly one more comparison constraint after them, and other objectives, each with its own weight"""
+    import copy, time
+    spin = case["spin"]
+    labs = [C.dec(x) for x in case["labs"]]
+    dom = (1, -1) if spin else (0, 1)
+    allb = list(itertools.product(dom, repeat=len(labs)))
+    t0 = time.time()
+    limit = min(90.0, 150.0 - _SEARCH_USED[0])
+    if limit <= 1:
+        return None
+    try:
+        return _search(case, rng, t0, limit)
+    finally:
+        _SEARCH_USED[0] += time.time() - t0
+
+
+def _search(case, rng, t0, limit):
+    import copy, time
+    spin = case["spin"]
+    labs = [C.dec(x) for x in case["labs"]]
+    dom = (1, -1) if spin else (0, 1)
+    allb = list(itertools.product(dom, repeat=len(labs)))
+    for _j in range(400):
+        if time.time() - t0 > limit * 0.3:
+            break
+        c2 = copy.deepcopy(case)
+        calls = c2["calls"]
+        if len(calls) < 3 and rng.random() < 0.6:
+            c = (c03 if spin else c02).gen_call(rng, labs)
+            c["bounds"] = None
+            if rng.random() < 0.5:
+                c["log"] = rng.choice([x["c"].get("log") for x in calls if x["t"] == "cmp"] or [c.get("log")])
+            P = G.unjraw(c["P"])
+            if any(ev(P, dict(zip(labs, b))).denominator != 1 for b in allb):
+                continue
+            calls.append({"t": "cmp", "c": c})
+        feas = [b for b in allb if feasible_x(calls, dict(zip(labs, b)), spin)]
+        if not feas or len(feas) == len(allb):
+            continue
+        obj = [((l,), F(rng.randint(-3, 3))) for l in labs]
+        if len(labs) >= 2 and rng.random() < 0.4:
+            obj.append((tuple(rng.sample(labs, 2)), F(rng.choice([-2, -1, 1, 2]))))
+        obj = [(k, v) for k, v in obj if v != 0]
+        if not obj:
+            continue
+        fvals = [ev(obj, dict(zip(labs, b))) for b in allb]
+        W = max(fvals) - min(fvals) + 1
+        for c in calls:
+            c["c"]["lam"] = [W.numerator, W.denominator]
+        c2.update({"obj": G.jraw(obj), "warm": None, "sym": 0})
+        try:
+            o2 = run_impl(c2)
+        except Exception:
+            continue
+        w = oracle(c2, o2)
+        if w and finding_key(c2, w) is None:        # (a listed finding met on the way is not what is being looked for)
+            return c2, o2, w
+    # second phase: fresh workflows of two constraints whose comparison constraints use the slack encodings (log_trick
+    # on / off, in order) of the workflow that disagreed
+    logs = [x["c"].get("log") for x in case["calls"] if x["t"] == "cmp"]
+    j = 0
+    while time.time() - t0 < limit and j < 4000:
+        j += 1
+        if j % 2:
+            # the same comparison constraint on two disjoint blocks of variables, each block with its own objective: the
+            # two slacks have to be able to take different values
+            nb = rng.choice([2, 3, 3])
+            A, B = list(range(1, nb + 1)), list(range(11, nb + 11))
+            c = (c03 if spin else c02).gen_call(rng, A)
+            c["bounds"] = None
+            if logs:
+                c["log"] = logs[0]
+            if any(ev(G.unjraw(c["P"]), dict(zip(A, b))).denominator != 1 for b in itertools.product(dom, repeat=nb)):
+                continue
+            cB = copy.deepcopy(c)
+            cB["P"] = [[[x + 10 for x in k], v] for k, v in c["P"]]
+            calls = [{"t": "cmp", "c": c}, {"t": "cmp", "c": cB}]
+            L = A + B
+            allL = list(itertools.product(dom, repeat=len(L)))
+            feas = [b for b in allL if feasible_x(calls, dict(zip(L, b)), spin)]
+            if not feas or len(feas) == len(allL):
+                continue
+            obj = [((l,), F(rng.randint(-3, 3))) for l in L]
+            obj = [(k, v) for k, v in obj if v != 0]
+            if not obj:
+                continue
+            fvals = [ev(obj, dict(zip(L, b))) for b in allL]
+            W = max(fvals) - min(fvals) + 1
+            for x in calls:
+                x["c"]["lam"] = [W.numerator, W.denominator]
+            c2 = {"spin": spin, "obj": G.jraw(obj), "calls": calls, "target": case["target"], "deg": case["deg"],
+                  "labs": [C.enc(l) for l in L], "sym": 0, "warm": None}
+        else:
+            c2 = gen(rng, j, "quick")
+            if len(c2["calls"]) < 2:
+                continue
+            if logs:
+                for idx, x in enumerate(c2["calls"]):
+                    if x["t"] == "cmp":
+                        x["c"]["log"] = logs[idx % len(logs)]
+            c2["sym"] = 0
+        try:
+            o2 = run_impl(c2)
+        except Exception:
+            continue
+        w = oracle(c2, o2)
+        if w and finding_key(c2, w) is None:        # (a listed finding met on the way is not what is being looked for)
+            return c2, o2, w
+    return None
+
+
 def finding_key(case, what):
     """groups the failing inputs of one known finding (see known_findings.txt)"""
     if what and any("raised KeyError" in w and "that are not variables of the model" in w for w in what):
